@@ -253,6 +253,33 @@ def _sh(s):
     return ",".join(map(str, s))
 
 
+def _probe_many_strings(weights):
+    """condensed layout for MANY strings (a block-wise implementation may switch on above some size): 300 and 700 strings, every index checked"""
+    def run():
+        import random
+        from pyrepseq import metric
+        rnd = random.Random(7)
+        m = metric.Levenshtein() if weights is None else metric.WeightedLevenshtein(*weights)
+        w = weights or (1, 1, 1)
+        for n in (300, 700):
+            X = ["".join(rnd.choice("ACDE") for _ in range(rnd.randint(0, 4))) for _ in range(n)]
+            vec = m.calc_pdist_vector(X)
+            if len(vec) != n * (n - 1) // 2:
+                return False, f"[many-strings probe] calc_pdist_vector of {n} strings has length {len(vec)}"
+            cache = {}
+            for i in range(n):
+                for j in range(i + 1, n):
+                    key = (X[i], X[j])
+                    if key not in cache:
+                        cache[key] = wlev(X[i], X[j], *w)
+                    got = vec[n * i + j - (i + 2) * (i + 1) // 2]
+                    if int(got) != cache[key]:
+                        return False, (f"[many-strings probe] weights {w}: calc_pdist_vector of {n} strings, index m*i+j-(i+2)(i+1)/2 for i={i}, j={j} "
+                                       f"holds {got!r}, distance({X[i]!r}, {X[j]!r}) = {cache[key]}")
+        return True, ""
+    return run
+
+
 def conditions(tier):
     out = []
     T = tier == "thorough"
@@ -281,4 +308,9 @@ def conditions(tier):
     for m1, m2 in [(1, 1), (2, 3), (3, 2), (0, 2)]:
         out.append(Condition(f"C08/cdist/fun/{m1}x{m2}", _body_fun("cdist", m1, m2), _replay_fun("cdist", m1, m2), budget=120, models=M,
                              bounds=f"functional cdist {m1} x {m2}"))
+    from harness import common as hc
+    out.append(hc.probe_condition("C08/probe/pdist_vector/300-and-700-strings/levenshtein", "Levenshtein().calc_pdist_vector on 300 and 700 strings: every condensed index against the DP oracle",
+                                  _probe_many_strings(None)))
+    out.append(hc.probe_condition("C08/probe/pdist_vector/300-and-700-strings/weighted", "WeightedLevenshtein(1,2,3).calc_pdist_vector on 300 and 700 strings: every condensed index",
+                                  _probe_many_strings((1, 2, 3))))
     return out
